@@ -6,7 +6,7 @@
      (hdr, (payload, (script, (attempts, (delays, final)))))
    kind 0 (hdr[0] = 0): a retry run
      hdr      = [0; enabled; init; rf_num; rf_den; mult_num; mult_den; max_interval; max_elapsed;
-                 timeout; signal; deadline; cancel_at; stop_at; tie]
+                 timeout; signal; deadline; cancel_at; stop_at; 0]
      payload  = item ids of the request
      script   = [(dur, layers)] ; layers outermost first: (0,[]) permanent, (1,[d]) throttle,
                 (2, sig :: rem) partial, (3,[]) shutdown error, (4,[]) fmt wrap ; (9,[]) alone = success
@@ -48,8 +48,10 @@ Definition config_of (h : list Z) : config :=
   {| c_enabled := negb (zn h 1 =? 0); c_init := zn h 2; c_rf := (zn h 3, zn h 4); c_mult := (zn h 5, zn h 6);
      c_maxint := zn h 7; c_maxel := zn h 8 |}.
 
-Definition tie_of (z : Z) : list wake :=
-  if z =? 0 then [WCtx; WStop; WTimer] else if z =? 1 then [WStop; WCtx; WTimer] else [WTimer; WCtx; WStop].
+(* resolution of simultaneously ready select branches: the harness keeps ctx/timer instants apart, and
+   a stop/timer tie ends in the shutdown verdict either way (post-timer re-check), so one fixed order
+   suffices; hdr[14] is kept in the wire format (0) *)
+Definition tie_of (z : Z) (k : nat) : list wake := [WCtx; WStop; WTimer].
 
 (* the draw that makes getRandomValueFromInterval return the observed delay D (u = 0 when D is
    not in the envelope: the model's delay then differs from D and the case fails) *)
@@ -69,7 +71,7 @@ Definition scenario_of (h : list Z) (payload : list Z) (delays : list Z) : scena
   let c := config_of h in
   {| sc_cfg := c; sc_timeout := zn h 9; sc_sig := signal_of_Z (zn h 10); sc_payload := payload;
      sc_deadline := zopt (zn h 11); sc_cancel := zopt (zn h 12); sc_stop := zopt (zn h 13);
-     sc_draws := draws_of c 0 delays; sc_tie := fun _ => tie_of (zn h 14) |}.
+     sc_draws := draws_of c 0 delays; sc_tie := tie_of (zn h 14) |}.
 
 Definition verdict_code (v : verdict) : Z :=
   match v with
